@@ -369,6 +369,9 @@ class Contract:
     known = {}                  # clause -> known-finding id whose class is excluded inside the clause itself
     hard_timeout_s = 0          # >0: every solver call runs in a forked child under this wall-clock limit (string theories)
     summaries = {}              # 'pkg.mod:Class.func' -> summary(I, args, kwargs): callee replaced by its CONTRACT
+    faulting = False            # every operation on an unknown (AnyVal) value may also raise an arbitrary exception
+    havoc_unmodelled = False    # calls of unmodelled library functions return unknown values instead of being unsupported
+    no_crosscheck = False       # inputs are not reifiable (unknown values): the CPython cross-check is skipped
     bounded = None              # text describing the bound if this contract is a bounded stand-in (never counted as proved)
 
     @classmethod
@@ -414,6 +417,8 @@ def verify_contract(contract_cls, rlimit=20_000_000, seed=0, crosscheck=True):
     C = contract_cls()
     shared = Shared(rlimit=rlimit, max_paths=C.max_paths)
     shared.hard_timeout_s = C.hard_timeout_s * (1 if rlimit <= 50_000_000 else 6)
+    shared.faulting = C.faulting
+    shared.havoc_unmodelled = C.havoc_unmodelled
     out = dict(contract=C.name(), target=C.target, props=list(C.props), clauses={}, paths=0, feasible_paths=0,
                unsupported=[], faults=[], crosscheck=dict(compared=0, mismatches=[]), functions={}, trusted=[],
                solver_calls=0, solver_s=0.0, wall_s=0.0, exists=True)
@@ -551,7 +556,7 @@ def verify_contract(contract_cls, rlimit=20_000_000, seed=0, crosscheck=True):
                 rr, m = realistic_model(ctx, z3.And(neg, *blocks))
                 if m is None:
                     break
-                confirmed, witness = replay(C, init, cname, clause, m)
+                confirmed, witness = replay(C, init, cname, clause, m, ctx)
                 if confirmed:
                     break
                 # block this model's input values and try another one
@@ -572,8 +577,8 @@ def verify_contract(contract_cls, rlimit=20_000_000, seed=0, crosscheck=True):
         # ---- CPython cross-check of the encoding on this path
         if crosscheck and model_pc is not None:
             try:
-                mism = crosscheck_path(C, init, args, kwargs, result, exc, model_pc)
-                out['crosscheck']['compared'] += 1
+                mism = '' if C.no_crosscheck else crosscheck_path(C, init, args, kwargs, result, exc, model_pc)
+                out['crosscheck']['compared'] += 0 if C.no_crosscheck else 1
                 if mism:
                     out['crosscheck']['mismatches'].append(f'path {ctx.decisions}: {mism}')
             except Exception as e:  # noqa
@@ -718,8 +723,13 @@ def reify_inputs(init, model):
     return R(list(ia)), R(dict(ik))
 
 
-def replay(C, init, cname, clause, model):
+def replay(C, init, cname, clause, model, ctx=None):
     """run the real code on the counter-model; the clause's concrete interpretation is the oracle"""
+    if hasattr(C, 'replay_custom'):
+        try:
+            return C.replay_custom(ctx, cname, model)
+        except Exception as e:  # noqa
+            return False, dict(note=f'custom replay crashed: {e!r}', trace=traceback.format_exc()[-600:])
     try:
         rargs, rkwargs = reify_inputs(init, model)
         if contains_wild(rargs) or contains_wild(rkwargs):
